@@ -81,6 +81,10 @@ def gen_case(rnd, tier, index):
     slot = index % SITES
     wrnd = random.Random(core.run_seed('C12/workbook', group))
     knobs = wbgen.draw_knobs(wrnd)
+    # computed references as whole formulas (=OFFSET(..), =INDIRECT("..")): what they point to
+    # is not among their declared precedents, so these workbooks are validated as a whole
+    # (outputs=None: every formula cell is checked, reachability does not come into it)
+    knobs['computed_refs'] = wrnd.random() < 0.3
     spec = wbgen.generate(wrnd, knobs)
     # known finding KF2: with iterative calculation validate_calcs recalculates the precedents
     # of the cell it checks, which destroys their stored results before they are compared.
@@ -115,7 +119,7 @@ def gen_case(rnd, tier, index):
                 cfg['site2'] = rnd.choice(others)
     # which outputs are checked
     roll = rnd.random()
-    if roll < 0.5:
+    if roll < 0.5 or knobs['computed_refs']:
         cfg['outputs'] = None
     else:
         k = rnd.randint(1, min(3, len(formulas)))
